@@ -32,7 +32,15 @@ CHECKS["C16"] = (
     "reference in harness/c16.py. If bins() leaves the translatable subset the SMT obligations are inconclusive and a "
     "concrete boundary-grid fallback (stated in evidence) is the only remaining detector.",
     "DESIGN.md §3 C16")
-for _p in ["C03", "C04", "C05", "C07", "C08", "C09", "C10", "C11", "C13", "C14", "C15", "C17", "C18",
+CHECKS["C14"] = (
+    _CH,
+    "BED12 invariants (count/sizes/starts consistency, first start 0, ascending, last start+size == end-start, thick range) and "
+    "faithful decoding are asserted on the record AND on str(BED12) read back by a 12-column reader through symbolic-token "
+    "rendering, for all integer coordinates of <=3 (quick) / <=4 (thorough) block transcripts/features, coding (every exon "
+    "sub-span) or not, both strands, chromosome mode, chunk-built chromosome mode and chunk-relative mode with a symbolic chunk "
+    "offset; adjacent blocks; both modes asked of one object in either order.",
+    _NOTE, "DESIGN.md §3 C14")
+for _p in ["C03", "C04", "C05", "C07", "C08", "C09", "C10", "C11", "C13", "C15", "C17", "C18",
            "C19", "C20"]:
     NOT_APPLICABLE[_p] = "check not built yet (build in progress; see DESIGN.md §3 for the planned solver-based check)"
 NOT_APPLICABLE["C12"] = ("GenBank writer cannot emit a feature on the installed Biopython (SeqFeature(strand=) TypeError), the "
